@@ -29,7 +29,7 @@ def exec (s : State) : Op → Out
   | .xfer a b n =>
     match bankSend s.bank a b n with
     | none => fail s .insufficientFunds
-    | some bank' => ({ s with bank := bank' }, .ok, if n = 0 then [] else [.transfer a b n])
+    | some bank' => ({ s with bank := bank' }, .ok, [])
   | .define n a _ => define s n a
   | .bind svc p o dep text qos =>
     match text with
@@ -44,8 +44,7 @@ def exec (s : State) : Op → Out
     if s.cfg.modsvc = some svc then panicOut s "module-service call: outside the model"
     else createCtx s id "" svc provs cons cap timeout super rep freq total inputOk true 0
   | .modcreate id mod svc provs cons cap timeout super rep freq total inputOk running thr =>
-    if mod = "" then (s, .invalid, [])
-    else createCtx s id mod svc provs cons cap timeout super rep freq total inputOk running thr
+    createCtx s id mod svc provs cons cap timeout super rep freq total inputOk running thr
   | .respond r p code out => respond s r p code out
   | .pause c cons => ctxMsg s c cons (fun s => pauseK s c cons)
   | .start c cons => ctxMsg s c cons (fun s => startK s c cons)
